@@ -6,8 +6,10 @@
 (*            "sympy.goal" / "sympy.interval" (sympywrapper.solve_goal / solve_with_interval),                 *)
 (*            "sympy.macro" (SymPyMacro.can_eval + eval)                                                       *)
 (*   goal, prems : the real HOL terms in the applied form of C06_Sem (structural projection)                   *)
-(*   acc    : "yes" the step accepted the goal | "no" it declined | "exc" it raised                            *)
+(*   acc    : "yes" the step accepted the goal | "no" it declined | "exc" it raised | "timeout" Z3 did not      *)
+(*            answer and was interrupted by the driver's watchdog (z3wrapper.solve has no time limit)           *)
 (*   flag   : value of z3wrapper.check_z3 when the step ran                                                    *)
+(*   route  : "giveup" when the step ran under a Z3 resource limit that makes Z3 answer "unknown" (else "")     *)
 (* Clauses (on every accepted event):                                                                          *)
 (*   Z3Sound / SymPySound : ~Refuted(goal | prems) -- no assignment of the free variables over the finite      *)
 (*                 sub-domains makes every premise true and the goal false under HOL's meaning (C06_Sem)       *)
@@ -15,7 +17,8 @@
 (*                 asserts every goal without calling the solver                                              *)
 (* Not examined (nt = FALSE): goals outside the evaluable fragment (transcendental functions, functions over   *)
 (* nat, > 4 free variables, ...), goals whose truth value is "N" under every assignment.                       *)
-(* Divergence (informational): the step declined a goal that is decided TRUE under every assignment.           *)
+(* Divergence (informational): the step declined a goal that is decided TRUE under every assignment, or Z3 did   *)
+(* not answer within the driver's limit.                                                                        *)
 EXTENDS C06_Sem, TraceLib
 NT == 2
 Exam(e) == Examinable(e.goal, e.prems)
@@ -27,7 +30,8 @@ ClausesO(e, o) ==
   (IF e.acc = "yes" /\ "F" \in o THEN {IF IsZ3(e) THEN "Z3Sound" ELSE "SymPySound"} ELSE {})
   \cup (IF e.solver \in {"z3.macro", "z3.proof"} /\ e.acc = "yes" /\ e.flag # TRUE THEN {"SolverConsulted"} ELSE {})
 NontrivialO(e, o) == e.acc = "yes" /\ o # {"N"}
-DivergesO(e, o) == e.acc = "no" /\ o = {"T"}
+GaveUp(e) == "route" \in DOMAIN e /\ e.route = "giveup"          \* tried under a resource limit: declining says nothing
+DivergesO(e, o) == (e.acc = "no" /\ o = {"T"} /\ ~GaveUp(e)) \/ e.acc = "timeout"
 Clauses(e) == ClausesO(e, Out(e))
 Nontrivial(e) == NontrivialO(e, Out(e))
 Diverges(e) == DivergesO(e, Out(e))
